@@ -386,6 +386,63 @@ def explore_correct(case):
         res.count("mag_rejections_too_close_to_vertical", int(ncode1))
         if ncode1 == 0:
             raise core.HarnessError("C11: the 'too close to vertical' magnetometer rejection was never reached")
+    # measurements, states and covariances next to every outcome change of the compiled corrections along rays: innovation angle 0..pi,
+    # measurement magnitude through the gate, heading error through a whole turn, field elevation up to the body vertical, body rate,
+    # estimate magnitude up to the shadow switch, covariance scale over five decades
+    if part == 0:
+        from .. import harvest
+        r0 = np.array([0.21, -0.13, 0.3])
+        R0 = ref.R_from_mrp(r0)
+        x0 = np.concatenate([r0, [0.01, -0.02, 0.005]])
+        gb = sens_accel(R0)
+        perp = np.cross(gb, np.array([0.3, -0.5, 0.8]))
+        perp /= np.linalg.norm(perp)
+        tri = lambda W: [W[rr, c] for c in range(6) for rr in range(c, 6)]
+        for wname, W in WS.items():
+            rays_a = [("innovation_angle", lambda t: (x0, W, ref.rot(perp * t) @ gb, np.zeros(3)), [k * math.pi / 16 for k in range(0, 17)]),
+                      ("measurement_magnitude", lambda t: (x0, W, ref.rot(perp * 0.3) @ gb * (t / G0), np.zeros(3)), [0.0, 1e-6, 1e-3, 0.1, 1.0, 5.0, 8.0, 8.5, 9.0, 9.5, 10.0, 10.5, 11.0, 12.0, 20.0, 50.0]),
+                      ("body_rate", lambda t: (x0, W, ref.rot(perp * 0.1) @ gb, np.array([0.6, -0.64, 0.48]) * t), [0.0, 1e-6, 1e-3, 0.1, 1.0, 3.0, 10.0, 30.0]),
+                      ("estimate_magnitude", lambda t: (np.concatenate([r0 / np.linalg.norm(r0) * t, x0[3:]]), W, sens_accel(ref.R_from_mrp(r0 / np.linalg.norm(r0) * t) @ ref.rot(perp * 0.05)), np.zeros(3)),
+                       [0.0, 1e-6, 1e-3, 0.1, 0.3, 0.5, 0.7, 0.9, 0.99, 1.0]),
+                      ("covariance_scale", lambda t: (x0, W * t, ref.rot(perp * 0.2) @ gb, np.zeros(3)), [1e-4, 1e-3, 1e-2, 0.1, 1.0, 10.0])]
+            for tag, mk, ts in rays_a:
+                def flat_of(t, mk=mk):
+                    x_, W_, y_, om_ = mk(t)
+                    return [list(x_), tri(W_), list(y_), [G0], list(om_), [STD_ACC], [STD_ACC_OM], [BETA_ACC]]
+                mem = harvest.ray_members(pa, flat_of, ts, per_cell=(8 if tier == "quick" else 24), cap=50)
+                res.count("harvested_members", len(mem))
+                for t in list(mem) + [(a + b) / 2 for a, b in zip(ts, ts[1:])]:
+                    x_, W_, y_, om_ = mk(t)
+                    res.count("evaluations")
+                    res.nontrivial.add(hash(("ray_a", wname, tag, t)))
+                    x1, W1, code, o = do_accel(x_, W_, y_, om_)
+                    if not math.isfinite(code):
+                        res.fail(site="mrp.correct_accel", clause="error_code_finite", cls="ray=" + tag, detail=dict(x=x_, W=wname, y=y_, t=t), sub="correct", case=case)
+                        continue
+                    judge_correction(res, "mrp.correct_accel", x_, W_, x1, W1, code, dict(W=wname, y=y_, tag="ray=%s t=%r" % (tag, t)), case, "correct")
+                    if code == 0 and not all(np.all(np.isfinite(arr(v))) for v in o):
+                        res.fail(site="mrp.correct_accel", clause="accepted_correction_finite", cls="secondary_outputs;ray=" + tag, detail=dict(x=x_, W=wname, y=y_, t=t), sub="correct", case=case)
+            rays_m = [("heading_error", lambda t: (x0, W, sens_mag(R0 @ ref.rot(np.array([0, 0, t])).T, 0.0, 0.3, 0.1)), [k * math.pi / 16 for k in range(-16, 17)]),
+                      ("field_elevation", lambda t: (x0, W, R0.T @ np.array([0.1 * math.cos(t), 0.0, 0.1 * math.sin(t)])), [k * math.pi / 32 for k in range(0, 17)]),
+                      ("field_magnitude", lambda t: (x0, W, sens_mag(R0 @ ref.rot(np.array([0, 0, 0.05])).T, 0.0, 0.3, t)), [1e-9, 1e-6, 1e-3, 0.01, 0.1, 1.0, 10.0, 1e3]),
+                      ("covariance_scale", lambda t: (x0, W * t, sens_mag(R0 @ ref.rot(np.array([0, 0, 0.3])).T, 0.0, 0.3, 0.1)), [1e-4, 1e-3, 1e-2, 0.1, 1.0, 10.0])]
+            for tag, mk, ts in rays_m:
+                def flat_of(t, mk=mk):
+                    x_, W_, y_ = mk(t)
+                    return [list(x_), tri(W_), list(y_), [0.0], [STD_MAG], [BETA_MAG]]
+                mem = harvest.ray_members(pm, flat_of, ts, per_cell=(8 if tier == "quick" else 24), cap=50)
+                res.count("harvested_members", len(mem))
+                for t in list(mem) + [(a + b) / 2 for a, b in zip(ts, ts[1:])]:
+                    x_, W_, y_ = mk(t)
+                    res.count("evaluations")
+                    res.nontrivial.add(hash(("ray_m", wname, tag, t)))
+                    x1, W1, code, o = do_mag(x_, W_, y_)
+                    if not math.isfinite(code):
+                        res.fail(site="mrp.correct_mag", clause="error_code_finite", cls="ray=" + tag, detail=dict(x=x_, W=wname, y=y_, t=t), sub="correct", case=case)
+                        continue
+                    judge_correction(res, "mrp.correct_mag", x_, W_, x1, W1, code, dict(W=wname, y=y_, tag="ray=%s t=%r" % (tag, t)), case, "correct")
+                    if code == 0 and not all(np.all(np.isfinite(arr(v))) for v in o):
+                        res.fail(site="mrp.correct_mag", clause="accepted_correction_finite", cls="secondary_outputs;ray=" + tag, detail=dict(x=x_, W=wname, y=y_, t=t), sub="correct", case=case)
     res.add_set("correct_accel_cells", len(sa))
     res.add_set("correct_mag_cells", len(sm))
     res.samples.append(dict(fn="corrections", states=len(rs)))
